@@ -163,9 +163,12 @@ def ids_step(c0: bool, c1: bool, c2: bool, c3: bool, cn: bool, j: int) -> bool:
         add_agent, remove_agent, get_agent = env.add_agent, env.remove_agent, env.get_agent
     target_id = "ghost" if j < 0 else IDS[0] if j == 0 else IDS[1] if j == 1 else IDS[2] if j == 2 else IDS[3]
     if op == 'add':
-        new = Agent("new" if j < 0 else target_id, m)
+        # (partition 'foreign': the newcomer was built for ANOTHER model - e.g. it migrates between two simulations;
+        # what counts is the environment it joins)
+        home = Model() if hx.P.get('foreign') else m
+        new = Agent("new" if j < 0 else target_id, home)
         if cn:
-            new.add_component(T1(new, m))
+            new.add_component(T1(new, home))
         snap = _snapshot(m, env, ref + [new])
         if j >= 0:
             hx.reach('rejected')
@@ -298,6 +301,8 @@ def spatial_bounds(w: int, h: int, d: int, x: int, y: int, z: int, c0: bool, cn:
     kind = hx.P['world']
     m = Model()
     env = _world(m, kind, w, h, d)
+    if hx.P.get('wrap'):
+        env.wrap_env = True          # a toroidal world bounds PLACEMENT like any other (only relative moves wrap)
     off = 0 if kind == 'space' else 1
     ww, hh, dd = env.width, env.height, env.depth
     ref = _prestate(m, env, 1, [c0], True)
@@ -513,6 +518,7 @@ def obligations(tier):
     parts += [{"r": 3, "op": op, "world": w} for w in ("space", "grid") for op in ("add", "remove")]
     parts += [{"r": 2, "op": op, "world": w, "alias": True} for w in ("plain", "space") for op in ("add", "remove", "get", "get_strict")]
     parts += [{"r": 2, "op": op, "world": w, "completed": True} for w in ("plain", "space") for op in ("add", "remove")]
+    parts += [{"r": 2, "op": "add", "world": w, "foreign": True} for w in ("plain", "space")]
     if tier != "quick":
         parts += [{"r": r, "op": op, "world": "plain"} for r in (1, 3) for op in ("add", "remove", "get", "get_strict")]
         parts += [{"r": 2, "op": op, "world": w} for w in ("line", "discrete", "gridlike") for op in ("add", "remove")]
@@ -524,7 +530,7 @@ def obligations(tier):
           timeout=300, group=2, encoded=senc, bounds={"residents": "0..4", "component flag per agent": "symbolic"}),
         X("modelless", modelless, parts=[{"world": w} for w in ("plain", "space")], labels=("accepted", "rejected"), timeout=300, encoded=senc,
           bounds={"residents": "3 component-less agents", "operation": "remove / get / strict get of any resident or an unknown id, add"}),
-        X("spatial_bounds", spatial_bounds, parts=[{"world": w} for w in worlds], labels=("out_of_bounds", "duplicate", "placed"),
+        X("spatial_bounds", spatial_bounds, parts=[{"world": w} for w in worlds] + [{"world": w, "wrap": True} for w in ("space", "gridlike")], labels=("out_of_bounds", "duplicate", "placed"),
           timeout=600, encoded=senc, bounds={"extents": "all ints >= 0 (symbolic for space/gridlike)", "position": "all ints"}),
         X("history", history, parts=_hist_parts(k, ["plain"]) + _hist_parts(k if tier != "quick" else 2, ["space"]),
           labels=("added", "add_rejected", "removed", "remove_rejected", "looked_up"), labels_for=_hist_labels,
